@@ -1,11 +1,288 @@
-(* Props/C03.v — TEMPORARY STUB (the optimiser soundness theorems are being proved in
-   Proofs/OptimizeCorrect.v and will replace this file). *)
-From Coq Require Import List NArith.
-From PV Require Import AVM.Syntax Comp.Blocks Comp.Passes.
+(* Props/C03.v — Compile options change cost and shape, never behaviour: the scratch-slot optimiser.
+   Property theorems only; proofs live in Proofs/OptimizeSem.v (semantic core), Proofs/OptimizeCorrect.v
+   (the passes of pyteal/compiler/optimizer/optimizer.py as modelled in Comp/Passes.v) and
+   Proofs/OptimizeOptions.v (version-dependent defaults).
+
+   Reading guide.
+   * A routine is a block graph g with start block [start]; [iterate g start] is TealBlock.Iterate(start).
+     Ops carry slot OBJECTS ([ASlot u]); an environment [env] numbers them ([e_asg env u] = scratch cell).
+     [star env (g_blk g) c d]: the block-graph semantics of Comp/GraphSem.v runs from configuration c to d;
+     the halting configurations are GExit v st (return), GRet stk st (retsub: the whole stack goes back),
+     GEnd stk st (left a block without successor), GFail, GUnsup o.
+   * [conf_eqx C c d]: same kind of configuration, same block, SAME STACK / return value, and states that
+     agree on trace, global/local/box state, inner transactions and on every scratch cell outside the
+     set C.  C is always the set of cells of the variables the optimiser removed — cells no user-numbered
+     slot can have (requested ids are in the skip set).
+   * [keep_op l i] = the filter of _remove_extraneous_slot_access for the removed set l;
+     [paired l ops]: every op the filter deletes from ops is half of an adjacent `store s; load s`, s in l.
+   * [ids_bounded g start]: the start and all successors of allocated blocks are below the id counter;
+     [slot_ops_wf g order]: every load/store op carries exactly one argument, a slot object.
+   * The DYNAMIC side conditions, [safe_from (PL env L) env (g_blk g) c0], say that along every execution
+     from c0, at every executed op: (1) a store of a slot in L finds a value on the stack; (2) a scratch
+     cell of a slot in L is read only by the direct load of a slot in L — not by `loads` with that run-time
+     index, not by a load with a literal number, not by the load of another variable that received the same
+     number.  The compiler guarantees (2) because slots reachable through an index (`int <slot>`
+     placeholders of DynamicScratchVar), reserved ids and slots shared between routines are in
+     OptimizeOptions._skip_slots (Compile.skip_slots) and the slot assignment is injective; it guarantees
+     (1) by stack discipline (C05).  [PL_static] gives a static sufficient condition for (2).
+   * [removed_slot g g' start u]: u has a load in g and none in g' (the slots whose accesses were cancelled).
+   * [no_orphan_store g g' start]: each removed slot has at most one store op in g.  THE CODE DOES NOT
+     CHECK THIS; it is exactly the class predicate of the known finding "optimizer-orphan-store":
+     Compile.opt_orphans o p = [] implies it ([C03_opt_orphans_nil_no_orphan_store]). *)
+From Coq Require Import List Arith NArith String Bool.
+From PV Require Import Base.Bytes Base.Sexp AVM.Syntax AVM.Machine Src.Expr Src.Denote
+  Comp.Blocks Comp.Lower Comp.Passes Comp.GraphSem Comp.SimCheck Comp.Compile
+  Extract.Wire Extract.WireExpr Gen.Tables
+  Proofs.OptimizeSem Proofs.OptimizeCorrect Proofs.OptimizeOptions.
 Import ListNotations.
 
-(* the optimiser never touches an op that is neither a load nor a store *)
-Theorem C03_keep_op_other :
-  forall remove i, is_op i O_store = false -> is_op i O_load = false -> keep_op remove i = true.
-Proof. intros remove i H1 H2. unfold keep_op. rewrite H1, H2. reflexivity. Qed.
-Print Assumptions C03_keep_op_other.
+(* ---- (F) the cancellation itself: one slot, all graphs ------------------------------------------- *)
+(* If, in the blocks TealBlock.Iterate visits, the ONLY load/store ops of slot s are one `store s`
+   immediately followed by one `load s` in block b0, then deleting both preserves every halting
+   configuration reachable from the start, in both directions, up to scratch cell [e_asg env s]. *)
+Theorem C03_opt_cancel_sound :
+  forall env g start s b0 pre post,
+    ids_bounded g start ->
+    In b0 (iterate g start) ->
+    get_ops g b0 = pre ++ mkI O_store [ASlot s] :: mkI O_load [ASlot s] :: post ->
+    (forall i, In i (pre ++ post) -> keep_op [s] i = true) ->
+    (forall b i, In b (iterate g start) -> b <> b0 -> In i (get_ops g b) -> keep_op [s] i = true) ->
+    forall stk st,
+      safe_from (PL env (eq s)) env (g_blk g) (GAt start stk st) ->
+      forall c, halting c ->
+        (star env (g_blk g) (GAt start stk st) c ->
+           exists c', star env (g_blk (remove_slot_access g start [s])) (GAt start stk st) c' /\
+                      conf_eqx (fun x => x = e_asg env s) c c') /\
+        (star env (g_blk (remove_slot_access g start [s])) (GAt start stk st) c ->
+           exists c0, star env (g_blk g) (GAt start stk st) c0 /\ conf_eqx (fun x => x = e_asg env s) c0 c).
+Proof. exact opt_cancel_sound. Qed.
+Print Assumptions C03_opt_cancel_sound.
+
+(* (F) a set of slots removed together, each access of which is half of a cancelling pair *)
+Theorem C03_remove_slot_access_sound :
+  forall env g start l,
+    ids_bounded g start ->
+    (forall b, In b (iterate g start) -> paired l (get_ops g b)) ->
+    inj_on env (fun s => In s l) ->
+    forall stk st,
+      safe_from (PL env (fun s => In s l)) env (g_blk g) (GAt start stk st) ->
+      forall c, halting c ->
+        (star env (g_blk g) (GAt start stk st) c ->
+           exists c', star env (g_blk (remove_slot_access g start l)) (GAt start stk st) c' /\
+                      conf_eqx (cellsL env (fun s => In s l)) c c') /\
+        (star env (g_blk (remove_slot_access g start l)) (GAt start stk st) c ->
+           exists c0, star env (g_blk g) (GAt start stk st) c0 /\ conf_eqx (cellsL env (fun s => In s l)) c0 c).
+Proof. exact remove_slot_access_sound. Qed.
+Print Assumptions C03_remove_slot_access_sound.
+
+(* ---- (P) apply_global_optimizations -------------------------------------------------------------- *)
+(* Whatever the per-block fixpoint loops do, the optimised routine reaches exactly the halting
+   configurations of the original (same stack at every exit, same return value, same trace and state,
+   same scratch except the removed variables' cells) PROVIDED no removed slot has a second store.
+   Partial: [no_orphan_store] is a hypothesis the code does not establish ([C03_optimizer_refuted]);
+   everything else the statement needs from the optimiser (adjacent pair, no other load — DepNo of
+   _has_load_dependencies) is derived from what the code checks. *)
+Theorem C03_optimize_routine_sound_partial :
+  forall env g start skip g',
+    optimize_routine g start skip = Some g' ->
+    ids_bounded g start ->
+    slot_ops_wf g (iterate g start) ->
+    no_orphan_store g g' start ->
+    inj_on env (removed_slot g g' start) ->
+    forall stk st,
+      safe_from (PL env (removed_slot g g' start)) env (g_blk g) (GAt start stk st) ->
+      forall c, halting c ->
+        (star env (g_blk g) (GAt start stk st) c ->
+           exists c', star env (g_blk g') (GAt start stk st) c' /\
+                      conf_eqx (cellsL env (removed_slot g g' start)) c c') /\
+        (star env (g_blk g') (GAt start stk st) c ->
+           exists c0, star env (g_blk g) (GAt start stk st) c0 /\
+                      conf_eqx (cellsL env (removed_slot g g' start)) c0 c).
+Proof. exact optimize_routine_sound_partial. Qed.
+Print Assumptions C03_optimize_routine_sound_partial.
+
+(* (P) the same for one call of _apply_slot_to_stack and for the per-block fixpoint loop *)
+Theorem C03_apply_slot_to_stack_sound_partial :
+  forall env g start cur skip g',
+    apply_slot_to_stack g start cur skip = Some g' ->
+    In cur (iterate g start) ->
+    ids_bounded g start ->
+    slot_ops_wf g (iterate g start) ->
+    no_orphan_store g g' start ->
+    inj_on env (removed_slot g g' start) ->
+    forall stk st,
+      safe_from (PL env (removed_slot g g' start)) env (g_blk g) (GAt start stk st) ->
+      forall c, halting c ->
+        (star env (g_blk g) (GAt start stk st) c ->
+           exists c', star env (g_blk g') (GAt start stk st) c' /\
+                      conf_eqx (cellsL env (removed_slot g g' start)) c c') /\
+        (star env (g_blk g') (GAt start stk st) c ->
+           exists c0, star env (g_blk g) (GAt start stk st) c0 /\
+                      conf_eqx (cellsL env (removed_slot g g' start)) c0 c).
+Proof. exact apply_slot_to_stack_sound_partial. Qed.
+Print Assumptions C03_apply_slot_to_stack_sound_partial.
+
+Theorem C03_opt_block_loop_sound_partial :
+  forall env n g start cur skip g',
+    opt_block_loop n g start cur skip = Some g' ->
+    In cur (iterate g start) ->
+    ids_bounded g start ->
+    slot_ops_wf g (iterate g start) ->
+    no_orphan_store g g' start ->
+    inj_on env (removed_slot g g' start) ->
+    forall stk st,
+      safe_from (PL env (removed_slot g g' start)) env (g_blk g) (GAt start stk st) ->
+      forall c, halting c ->
+        (star env (g_blk g) (GAt start stk st) c ->
+           exists c', star env (g_blk g') (GAt start stk st) c' /\
+                      conf_eqx (cellsL env (removed_slot g g' start)) c c') /\
+        (star env (g_blk g') (GAt start stk st) c ->
+           exists c0, star env (g_blk g) (GAt start stk st) c0 /\
+                      conf_eqx (cellsL env (removed_slot g g' start)) c0 c).
+Proof. exact opt_block_loop_sound_partial. Qed.
+Print Assumptions C03_opt_block_loop_sound_partial.
+
+(* (F) the hypothesis is the class predicate of the known finding: for every routine of a program whose
+   [opt_orphans] list is empty, [no_orphan_store] holds *)
+Theorem C03_opt_orphans_nil_no_orphan_store :
+  forall o p crs c g',
+    compile_rec (S (List.length (p_subs p))) o p None (p_main p) [] = COk crs ->
+    In c crs ->
+    optimize_routine (cr_graph c) (cr_start c) (skip_slots p crs) = Some g' ->
+    slot_ops_wf (cr_graph c) (iterate (cr_graph c) (cr_start c)) ->
+    opt_orphans o p = [] ->
+    no_orphan_store (cr_graph c) g' (cr_start c).
+Proof. exact opt_orphans_nil_no_orphan_store. Qed.
+Print Assumptions C03_opt_orphans_nil_no_orphan_store.
+
+(* (P) the two together, in pipeline form *)
+Theorem C03_compiled_routine_optimizer_sound_partial :
+  forall env o p crs c g',
+    compile_rec (S (List.length (p_subs p))) o p None (p_main p) [] = COk crs ->
+    In c crs ->
+    optimize_routine (cr_graph c) (cr_start c) (skip_slots p crs) = Some g' ->
+    opt_orphans o p = [] ->
+    ids_bounded (cr_graph c) (cr_start c) ->
+    slot_ops_wf (cr_graph c) (iterate (cr_graph c) (cr_start c)) ->
+    inj_on env (removed_slot (cr_graph c) g' (cr_start c)) ->
+    forall stk st,
+      safe_from (PL env (removed_slot (cr_graph c) g' (cr_start c))) env (g_blk (cr_graph c)) (GAt (cr_start c) stk st) ->
+      forall x, halting x ->
+        (star env (g_blk (cr_graph c)) (GAt (cr_start c) stk st) x ->
+           exists x', star env (g_blk g') (GAt (cr_start c) stk st) x' /\
+                      conf_eqx (cellsL env (removed_slot (cr_graph c) g' (cr_start c))) x x') /\
+        (star env (g_blk g') (GAt (cr_start c) stk st) x ->
+           exists x0, star env (g_blk (cr_graph c)) (GAt (cr_start c) stk st) x0 /\
+                      conf_eqx (cellsL env (removed_slot (cr_graph c) g' (cr_start c))) x0 x).
+Proof. exact compiled_routine_optimizer_sound. Qed.
+Print Assumptions C03_compiled_routine_optimizer_sound_partial.
+
+(* (F) static sufficient condition for the "reads" half of the dynamic hypothesis *)
+Theorem C03_PL_static :
+  forall env (L : N -> Prop) i stk,
+    i_op i <> O_loads ->
+    (i_op i = O_load -> exists u, i_args i = [ASlot u] /\ (L u \/ ~ cellsL env L (e_asg env u))) ->
+    (forall s, L s -> i = mkI O_store [ASlot s] -> stk <> []) ->
+    PL env L i stk.
+Proof. exact PL_static. Qed.
+Print Assumptions C03_PL_static.
+
+(* ---- (R) the optimiser is NOT sound: a second store of the cancelled slot ----------------------- *)
+(* def f(): x.store(Int(1)); x.store(Int(2)); return x.load()   — the graph [rf_g] is what the model of
+   compileSubroutine produces for it ([rf_g_is_the_lowering]).  optimize_routine deletes both stores
+   and the load: the routine hands [2; 1] back to its caller instead of [2].  The witness satisfies every
+   hypothesis of the soundness theorem except [no_orphan_store]. *)
+Theorem C03_optimizer_refuted :
+  exists (g : graph) (start : id) (skip : list N) (g' : graph) (env : denv) (st : mstate)
+         (stk1 : list value) (st1 : mstate) (stk2 : list value) (st2 : mstate),
+    ids_bounded g start /\ slot_ops_wf g (iterate g start) /\
+    optimize_routine g start skip = Some g' /\
+    star env (g_blk g) (GAt start [] st) (GRet stk1 st1) /\
+    star env (g_blk g') (GAt start [] st) (GRet stk2 st2) /\
+    stk1 <> stk2 /\
+    (~ exists c', star env (g_blk g') (GAt start [] st) c' /\ conf_eqx (fun _ => True) (GRet stk1 st1) c') /\
+    ~ no_orphan_store g g' start.
+Proof. exact optimizer_refuted. Qed.
+Print Assumptions C03_optimizer_refuted.
+
+(* ---- (F) the optimiser touches nothing but load/store ops of removed slots ---------------------- *)
+Theorem C03_optimizer_preserves_non_slot_ops :
+  forall g start l,
+    let g' := remove_slot_access g start l in
+    g_next g' = g_next g /\ g_inc g' = g_inc g /\
+    (forall b, match g_blk g b, g_blk g' b with
+               | Some bb, Some bb' => same_shape bb bb'
+               | None, None => True
+               | _, _ => False
+               end) /\
+    (forall b, out_of g' b = out_of g b) /\
+    iterate g' start = iterate g start /\
+    (forall b, get_ops g' b = if mem_id b (iterate g start) then filter (keep_op l) (get_ops g b) else get_ops g b) /\
+    (forall i, keep_op l i = false <->
+               (i_op i = O_store \/ i_op i = O_load) /\ (forall s, In s (instr_slots i) -> In s l)).
+Proof. exact optimizer_preserves_non_slot_ops. Qed.
+Print Assumptions C03_optimizer_preserves_non_slot_ops.
+
+(* for a load/store of the usual form the deleted ops are the loads and stores of removed slots *)
+Theorem C03_keep_op_false_wf :
+  forall l i u, i_args i = [ASlot u] ->
+    (keep_op l i = false <-> (i = mkI O_store [ASlot u] \/ i = mkI O_load [ASlot u]) /\ In u l).
+Proof. exact keep_op_false_wf. Qed.
+Print Assumptions C03_keep_op_false_wf.
+
+Theorem C03_optimize_routine_preserves_non_slot_ops :
+  forall g start skip g',
+    optimize_routine g start skip = Some g' ->
+    g_next g' = g_next g /\ g_inc g' = g_inc g /\
+    (forall b, out_of g' b = out_of g b) /\
+    iterate g' start = iterate g start /\
+    (forall b, exists keep : instr -> bool,
+        get_ops g' b = filter keep (get_ops g b) /\
+        forall i, keep i = false -> i_op i = O_store \/ i_op i = O_load).
+Proof. exact optimize_routine_preserves_non_slot_ops. Qed.
+Print Assumptions C03_optimize_routine_preserves_non_slot_ops.
+
+(* (F) TealBlock.Iterate visits the start and is closed under successors (so the filter reaches every
+   block an execution can reach), and visits no block twice *)
+Theorem C03_iterate_closed :
+  forall g start, ids_bounded g start ->
+    In start (iterate g start) /\
+    (forall p x, In p (iterate g start) -> In x (out_of g p) -> In x (iterate g start)).
+Proof. exact iterate_closed. Qed.
+Print Assumptions C03_iterate_closed.
+
+(* ---- (F) version-dependent defaults ------------------------------------------------------------- *)
+Theorem C03_options_resolved :
+  forall body v m ss fp v' ss' fp',
+    field "version"%string body = Some [v] -> field "mode"%string body = Some [Atom m] ->
+    field "scratch-slots"%string body = Some [ss] -> field "frame-pointers"%string body = Some [fp] ->
+    w_N v = Some v' -> w_tri ss = Some ss' -> w_tri fp = Some fp' ->
+    match resolve_frame_pointers fp' v' with
+    | None => w_opts body = Some (inr ErrInput)
+    | Some f =>
+        exists o, w_opts body = Some (inl o) /\
+                  o_version o = v' /\ o_app_mode o = String.eqb m "app"%string /\
+                  o_opt_slots o = resolve_opt_slots ss' v' /\ o_use_fp o = f
+    end.
+Proof. exact options_resolved. Qed.
+Print Assumptions C03_options_resolved.
+
+Theorem C03_option_defaults :
+  (forall v, resolve_opt_slots None v = true <-> (gen_DEFAULT_SCRATCH_SLOT_OPTIMIZE_VERSION <= v)%N) /\
+  (forall b v, resolve_opt_slots (Some b) v = b) /\
+  (forall v, resolve_frame_pointers None v = Some true <-> (gen_FRAME_POINTERS_VERSION <= v)%N) /\
+  (forall v, resolve_frame_pointers None v <> None) /\
+  (forall v, resolve_frame_pointers (Some false) v = Some false) /\
+  (forall v, resolve_frame_pointers (Some true) v = None <-> (v < gen_FRAME_POINTERS_VERSION)%N) /\
+  (forall v, resolve_frame_pointers (Some true) v = Some true <-> (gen_FRAME_POINTERS_VERSION <= v)%N).
+Proof. exact option_defaults. Qed.
+Print Assumptions C03_option_defaults.
+
+Theorem C03_option_defaults_documented :
+  gen_DEFAULT_SCRATCH_SLOT_OPTIMIZE_VERSION = 9%N /\ gen_FRAME_POINTERS_VERSION = 8%N /\
+  map (resolve_opt_slots None) [2; 3; 4; 5; 6; 7; 8; 9; 10]%N =
+    [false; false; false; false; false; false; false; true; true] /\
+  map (resolve_frame_pointers None) [2; 3; 4; 5; 6; 7; 8; 9; 10]%N =
+    [Some false; Some false; Some false; Some false; Some false; Some false; Some true; Some true; Some true].
+Proof. exact option_defaults_documented. Qed.
+Print Assumptions C03_option_defaults_documented.
